@@ -262,6 +262,12 @@ func (r *Run) Violate(oracle, signature, format string, args ...any) {
 		return
 	}
 	knownOnce.Do(loadKnown)
+	signature = strings.Map(func(c rune) rune {
+		if c == ' ' || c == '\t' || c == '\n' {
+			return '_'
+		}
+		return c
+	}, signature)
 	msg := fmt.Sprintf(format, args...)
 	key := r.Property + "|" + signature
 	if what, ok := knownSigs[key]; ok {
